@@ -264,6 +264,15 @@ def check_layer_lookup_names(repo: Repo, res: Result) -> None:
         res.undecide("C05.R5", construct, detail, where(lookup, lookup.node))
     else:
         res.add("C05.R5", construct, verdict != "violated", detail, where(lookup, lookup.node), kind="flow")
+    # a binary search over the listed names compares the name under the order the list was sorted by
+    from .c05_bisect import bisect_sites
+
+    for f, call, bverdict, why in bisect_sites(repo, list(reach)):
+        k = repo.key(f, stmt_of(call)) + " [search order]"
+        if bverdict == "undecided":
+            res.undecide("C05.R5", k, why, where(f, call))
+        else:
+            res.add("C05.R5", k, bverdict == "ok", why, where(f, call), kind="flow")
     res.add("C05.R5", "fixture::engine/fixtures/name_ops.py", True, names.fixture_selfcheck(), nontrivial=False)
     res.analysed["layer_lookup_functions"] = len(reach)
     res.analysed["layer_lookup_name_sites"] = n
